@@ -264,3 +264,20 @@ def always_raises(stmts: list[ast.stmt], raiser=None) -> bool:
     if isinstance(last, ast.With):
         return always_raises(last.body, raiser)
     return False
+
+
+def simple_paths(cfg: CFG, src: int, dsts: set[int], limit: int = 20000) -> list[list[int]]:
+    """All simple paths (no node twice) from src to any node in dsts."""
+    out: list[list[int]] = []
+    stack: list[tuple[int, list[int]]] = [(src, [src])]
+    while stack:
+        n, path = stack.pop()
+        if n in dsts:
+            out.append(path)
+            if len(out) > limit:
+                raise AnalysisError("too many paths")
+            continue
+        for s in sorted(cfg.succ[n]):
+            if s not in path:
+                stack.append((s, path + [s]))
+    return out
